@@ -18,6 +18,7 @@ from proto import A, dumps
 from run import Case
 import zoo
 import zoo_c08
+from kernels_tie import optional_match as optional_obligation  # noqa: F401  (`BaseMatcher.match` + every `_match` regenerated from pattern.py: optional bridge)
 
 PROPERTY = "C08"
 LEAN_MODULE = "PyOak.Props.C08All"
